@@ -165,12 +165,14 @@ def oracle(ops, meta, outs, m, t, root):
             below = [k for k in m if k.startswith(p)]
             if below and p not in m:
                 stats["prefix_witness"] += 1
-            for k in below:
+            # every key starting with p: the stored ones and absent ones (answer: None)
+            probes = below + [k for k in (p, p + b"\x00", p + b"\xff", p + b"\x12\x34") if k and k not in m]
+            for k in probes:
                 try:
                     got = BinaryTrie(db2, root).get(k)
                 except Exception as e:
                     return f"witness for {p.hex()} is insufficient: get({k.hex()}) raised {type(e).__name__}", stats
-                if got != m[k]:
+                if got != m.get(k):
                     return f"witness for {p.hex()} answers get({k.hex()}) wrongly", stats
     return None, stats
 
